@@ -33,6 +33,7 @@ void vrt_config(int preempt_budget, int every_access, int spurious_cas_budget);
  * (>= 1) that fires at most once, at a point the schedule picks.  Returns the context id (main = 0). */
 int vrt_spawn(vrt_fn fn, void *arg, int prio);
 void vrt_run(void);               /* THREADS: run all coroutines to completion */
+void vrt_join_all(void);          /* the caller has joined every other context (done automatically at the end of vrt_run) */
 void vrt_isr_enable(int on);      /* ISR: interrupts may fire only while enabled */
 void vrt_point(void);             /* an explicit scheduling point in harness code */
 void vrt_yield(void);             /* THREADS: voluntary switch (polling loops) */
@@ -59,7 +60,7 @@ struct vrt_report {
 const struct vrt_report *vrt_report(void);
 /* every atomic access of the run (logical time, context, address): observation-based rules (C03 rule B) */
 unsigned vrt_alog_count(void);
-void vrt_alog_get(unsigned i, uint64_t *t, int *ctx, uintptr_t *addr);
+void vrt_alog_get(unsigned i, uint64_t *t, int *ctx, uintptr_t *addr, int *is_load);
 
 #ifdef __cplusplus
 }
